@@ -205,7 +205,7 @@ func (fu *folderUpload) FormattedPath() string {
 
 	// TODO: implement scanner interface instead?
 	for i := uint16(0); i < pathItemLen; i++ {
-		segLen := pathData[2]
+		segLen := int(pathData[2]) // as an int: 3+segLen must not wrap around for names of 253 to 255 bytes
 		pathSegments = append(pathSegments, string(pathData[3:3+segLen]))
 		pathData = pathData[3+segLen:]
 	}
